@@ -8,6 +8,13 @@ for f in ('patch.diff', 'demo_test.go', 'notes.txt'):
     if os.path.exists(os.path.join(src, f)):
         shutil.copy(os.path.join(src, f), os.path.join(dst, f))
 r = json.loads(res)
+if not needs and os.path.exists(os.path.join(src, 'notes.txt')):
+    import re
+    txt = open(os.path.join(src, 'notes.txt')).read()
+    m = re.search(r'(?im)^.*\b(needs to manifest|what it needs|needs|trigger(s|ed)?( by)?|manifests? (only )?when)\b.*$', txt)
+    if m:
+        i = m.start()
+        needs = ' '.join(txt[i:i + 400].split())
 meta = {
     "id": sid, "property": prop,
     "breaks": open(os.path.join(src, 'notes.txt')).read()[:1500] if os.path.exists(os.path.join(src, 'notes.txt')) else "",
